@@ -1459,10 +1459,14 @@ def pointer_views_to_subscripts(prog, repo_prefix):
                 else:
                     ok = False
                     break
-            # the offset's variables are not written in the function (the window does not move)
+            # the offset's variables are not written while the pointer is alive (inside the block that declares it): the window
+            # does not move
             if ok and off is not None:
                 odids = {x["ref"].get("did") for x in walk(off) if x.get("k") == "DeclRefExpr" and isinstance(x.get("ref"), dict)}
-                for x in walk(fn["body"]):
+                scope = parent.get(id(parent.get(id(v), v)), fn["body"])
+                if scope.get("k") != "CompoundStmt":
+                    scope = fn["body"]
+                for x in walk(scope):
                     if (x.get("k") == "BinaryOperator" and x.get("op") == "=") or x.get("k") == "CompoundAssignOperator" or (x.get("k") == "UnaryOperator" and x.get("op") in ("++", "--", "post++", "post--", "pre++", "pre--")):
                         t = strip(x["c"][0])
                         if t.get("k") == "DeclRefExpr" and (t.get("ref") or {}).get("did") in odids:
